@@ -153,6 +153,13 @@ def run(F, ck, tier):
         # one level of inlining so that a wrapper delegating to the validating function is seen through
         fl = flow.Flow(F, fn, inline=C.inline_only({'verify_stark_proof_with_challenges'}) if fn.name == 'verify_stark_proof' else None, depth=1)
         vnames = {'validate_proof_with_pis_shape', 'validate_proof_shape', 'validate_fri_proof_shape', 'validate_batch_fri_proof_shape', 'validate_compressed_proof_with_pis_shape', 'validate_compressed_proof_shape'}
+        for n_ in sorted(vnames):
+            c_ = [f for f in F.fns.values() if f.name == n_ and f.owner is None and f.crate in ('plonky2', 'starky')]
+            if len(c_) == 1:
+                F.record_callee(n_, c_[0].d)
+            rn_ = F.renamed_callee(n_)
+            if rn_:
+                vnames.add(rn_)
         validated = False
         early = []
         for e in fl.events:
